@@ -138,8 +138,9 @@ def run(chk):
             me, opts, inst = mk(it)
             snap0, objs0 = snapshot(me)
             arg = argmaker(it)
+            arg_snap = dict(arg.fields) if isinstance(arg, SObj) else None
             r = it.call_method(me, name, [arg] if arg is not NOARG else [])
-            it.ctx.ghost.update(me=me, opts=opts, inst=inst, snap0=snap0, objs0=objs0, arg=arg)
+            it.ctx.ghost.update(me=me, opts=opts, inst=inst, snap0=snap0, objs0=objs0, arg=arg, arg_snap=arg_snap)
             return r
         paths = e.explore(t)
 
@@ -192,6 +193,19 @@ def run(chk):
             chk.prove_paths(f"{name}:modifies-nothing[simulator.random_seed]", paths, frame(only=True), func=fq, replay=rp)
         else:
             chk.prove_paths(f"{name}:modifies-nothing(reachable-from-self)", paths, frame(), func=fq, replay=rp)
+
+        # the object handed in (a simulator, runtime, error model, hook a user may also hand to another
+        # configuration) is stored, not written to
+        def arg_frame(p):
+            if p.kind != "return":
+                return z3.BoolVal(False)
+            g = p.ctx.ghost
+            if g.get("arg_snap") is None:
+                return z3.BoolVal(True)
+            a = g["arg"]
+            return z3.And(z3.BoolVal(set(a.fields) == set(g["arg_snap"])), *[same(a.fields[k], v) for k, v in g["arg_snap"].items() if k in a.fields])
+        if paths and any(p.ctx.ghost.get("arg_snap") is not None for p in paths):
+            chk.prove_paths(f"{name}:the-object-passed-in-is-not-written-to", paths, arg_frame, func=fq, replay=lambda m_: {"script": REPLAY_ARG, "input": {}})
 
     NOARG = object()
     check_derivation("with_n_qubits", "_n_qubits", lambda it: SInt(z3.Int("arg")))
@@ -296,3 +310,36 @@ def run(chk):
                         "dataclasses.replace = shallow copy through the class constructor (as CPython)"]
     chk.not_covered += ["EmulatorBuilder.with_build_arg / build (selene build pipeline)", "EmulatorResult post-processing"]
     chk.use_engine(e)
+
+
+REPLAY_ARG = r'''
+import guppy_plainbool
+from guppylang import guppy
+from guppylang.std.quantum import qubit, h, project_z, discard
+from selene_sim import Quest
+import tempfile, importlib.util, os, sys, shutil
+src = """from guppylang import guppy
+from guppylang.std.builtins import result
+from guppylang.std.quantum import qubit, h, project_z, discard
+@guppy
+def main() -> None:
+    q = qubit()
+    h(q)
+    result("b", project_z(q))
+    discard(q)
+"""
+d = tempfile.mkdtemp(dir=os.environ.get("TMPDIR", "/var/tmp")); fn = os.path.join(d, "replay_c28a.py"); open(fn, "w").write(src)
+spec = importlib.util.spec_from_file_location("replay_c28a", fn); m = importlib.util.module_from_spec(spec); sys.modules["replay_c28a"] = m
+try:
+    spec.loader.exec_module(m)
+    base = m.main.emulator(n_qubits=1).with_shots(12)
+    sim = Quest()
+    before = getattr(sim, "random_seed", None)
+    a = base.with_seed(1).with_simulator(sim)
+    after = getattr(sim, "random_seed", None)
+    out = {"violates": before != after, "random_seed_of_the_user's_simulator_before": before, "after_with_simulator": after}
+except Exception as ex:
+    out = {"violates": False, "error": repr(ex)[:300]}
+shutil.rmtree(d, ignore_errors=True)
+print(json.dumps(out))
+'''
